@@ -552,3 +552,15 @@ Example nan_equals_nothing_after_fix :
   apply_with_cond cfg_fixed nan_body [] (Some (nan_cond 3)) = Err ECondNotMet /\
   apply_with_cond cfg_fixed nan_body [] (Some (nan_cond 5)) = Err ECondNotMet.
 Proof. vm_compute. repeat split; reflexivity. Qed.
+
+(* later ops of a patch see what earlier ops wrote: SET n := int32 1000 then INC n by int8 1 on a
+   body where n was int8 5 gives int32 1001 (the code of the value just stored, not the
+   pre-patch one); uint8 7, SET int16 256, INC int8 -1 gives int16 255 *)
+Example inc_after_set_uses_the_stored_type :
+  apply_with_cond cfg_fixed [129; 161; 110; 208; 5]
+    [ex_set [110] [210; 0; 0; 3; 232]; {| op_kind := 2; op_path := [110]; op_value := [208; 1] |}] None
+  = Ok [129; 161; 110; 210; 0; 0; 3; 233] /\
+  apply_with_cond cfg_fixed [129; 161; 110; 204; 7]
+    [ex_set [110] [209; 1; 0]; {| op_kind := 2; op_path := [110]; op_value := [208; 255] |}] None
+  = Ok [129; 161; 110; 209; 0; 255].
+Proof. vm_compute. split; reflexivity. Qed.
